@@ -90,8 +90,66 @@ func (e *Env) recordUpdates() []upd {
 			}
 		}
 	}
+	upds = e.liftMapCopies(g, upds)
 	e.upds = upds
 	return upds
+}
+
+// liftMapCopies: a map field of the record filled by copying a map that a module helper built
+// ("for k, v := range t.upstreamAuditInfos() { rec.Upstream[k] = v }"): when the copy loop is complete and
+// unconditional, the entries the helper puts into the map it returns stand for the copied ones, so the rules see
+// where keys and values really come from.
+func (e *Env) liftMapCopies(g *core.XG, upds []upd) []upd {
+	sy := e.xsym()
+	var out []upd
+	for _, u := range upds {
+		lifted := false
+		if u.key != nil && u.key.Op == "rangekey" && u.val != nil && u.val.Op == "rangeval" && len(u.key.Args) == 1 && len(u.val.Args) == 1 {
+			c := u.key.Args[0]
+			if c.Op == "call" && c.Callee != nil && e.P.IsRepo(c.Callee) && c.Val != nil && c.Val == u.val.Args[0].Val {
+				las := iterLoops(g, u.n)
+				okCopy := len(las) > 0 && e.loopHarmlessExits(g, las[0])
+				if okCopy {
+					for _, gd := range e.chainGuards(g, u.n, las[0]) {
+						if !strings.HasPrefix(strings.TrimPrefix(gd, "!"), "more∈") {
+							okCopy = false
+						}
+					}
+				}
+				// the map the helper returns: a single local make(map)
+				var made ssa.Value
+				nRet := 0
+				for _, b := range c.Callee.Blocks {
+					for _, in := range b.Instrs {
+						if rt, ok := in.(*ssa.Return); ok && len(rt.Results) == 1 {
+							nRet++
+							if mm, ok := rt.Results[0].(*ssa.MakeMap); ok {
+								made = mm
+							}
+						}
+					}
+				}
+				if okCopy && made != nil && nRet == 1 {
+					for _, m := range g.Nodes {
+						mu, ok := m.Instr.(*ssa.MapUpdate)
+						if !ok || mu.Map != made || m.Ctx.Fn != c.Callee {
+							continue
+						}
+						// the helper's instance that feeds this copy loop
+						if m.Ctx.CallNode == nil || m.Ctx.CallNode.Instr != c.Val.(ssa.Instruction) {
+							continue
+						}
+						out = append(out, upd{m, u.field, sy.InCtx(m.Ctx, mu.Key), sy.InCtx(m.Ctx, mu.Value)})
+						lifted = true
+					}
+				}
+			}
+		}
+		if !lifted {
+			out = append(out, u)
+		}
+	}
+	return out
 }
 
 func c10(e *Env) {
